@@ -294,3 +294,60 @@ Proof.
   destruct (forallb (op_ok env) (List.concat sts)) eqn:Eo; [|discriminate H].
   injection H as <- <-. now apply copies_forallb.
 Qed.
+
+(* ---------- global phase statements without operands ---------- *)
+Definition phase_ok (stm : stmt) : option (list stmt) :=
+  match stm with
+  | SPhase mods arg [] =>
+      match cmods mods 1 false, ceval arg with
+      | Some (p, inv), Some v0 =>
+          match (if inv then py_binop OpMul (VInt (-1)) (num_of_bool v0) else Ok (num_of_bool v0)) with
+          | Ok final => if (p <? 10000) && num_val final
+                        then Some (if p <=? 0 then [] else repeat (SPhase [] (ELit final) []) (Z.to_nat p)) else None
+          | Err _ => None
+          end
+      | _, _ => None
+      end
+  | _ => None
+  end.
+
+Lemma phase_gen_fix check_only f s stm out : phase_ok stm = Some out ->
+  visit_stmt check_only [] (S f) stm s = Ok ((if check_only then [] else out), s).
+Proof.
+  intros H. destruct stm; try discriminate H. cbn [phase_ok] in H. destruct qubits; [|discriminate H].
+  destruct (cmods mods 1 false) as [[p inv]|] eqn:Ec; [|discriminate H]. destruct (ceval arg) as [v0|] eqn:Ev; [|discriminate H].
+  match type of H with match ?r with _ => _ end = _ => destruct r as [final|] eqn:Ef; [|discriminate H] end.
+  destruct ((p <? 10000) && num_val final) eqn:C; [|discriminate H]. injection H as <-.
+  apply andb_true_iff in C as [Hp Hn].
+  cbn [visit_stmt visit_stmt_body]. set (cr := visit_call check_only [] f). unfold visit_generic_phase.
+  rewrite (bind_eq _ _ s (VInt p, inv) s (collapse_mods_literal cr mods 1 false (p, inv) s Ec)).
+  rewrite (bind_eq _ _ s s s eq_refl). cbn [negb andb]. rewrite (bind_eq _ _ s [] s eq_refl).
+  rewrite (bind_eq _ _ s p s eq_refl). rewrite Hp. cbn [guard]. rewrite (bind_eq _ _ s tt s eq_refl).
+  destruct (p <=? 0) eqn:Ez; [unfold emit, ret; destruct check_only; reflexivity|].
+  assert (E0 : eval0 cr arg false None s = Ok (v0, s)).
+  { unfold eval0. rewrite (bind_eq _ _ s (v0, []) s (ceval_eval cr arg v0 s Ev)). reflexivity. }
+  rewrite (bind_eq _ _ s v0 s E0).
+  rewrite (bind_eq _ _ s final s).
+  2:{ destruct inv; [unfold lift; now rewrite Ef|injection Ef as <-; reflexivity]. }
+  rewrite (bind_eq _ _ s s s eq_refl). rewrite andb_false_r. cbn [negb guard]. rewrite (bind_eq _ _ s tt s eq_refl).
+  unfold emit, ret. destruct check_only; reflexivity.
+Qed.
+
+Lemma phase_ok_ops env stm out : phase_ok stm = Some out -> forallb (op_ok env) out = true.
+Proof.
+  intros H. destruct stm; try discriminate H. cbn [phase_ok] in H. destruct qubits; [|discriminate H].
+  destruct (cmods mods 1 false) as [[p inv]|]; [|discriminate H]. destruct (ceval arg) as [v0|]; [|discriminate H].
+  match type of H with match ?r with _ => _ end = _ => destruct r as [final|]; [|discriminate H] end.
+  destruct ((p <? 10000) && num_val final) eqn:C; [|discriminate H]. injection H as <-.
+  apply andb_true_iff in C as [_ Hn]. destruct (p <=? 0); [reflexivity|].
+  apply forallb_forall. intros x Hx. apply repeat_spec in Hx. subst x. cbn [op_ok]. exact Hn.
+Qed.
+
+Lemma phase_ok_events stm out : phase_ok stm = Some out -> evs_of out = [].
+Proof.
+  intros H. destruct stm; try discriminate H. cbn [phase_ok] in H. destruct qubits; [|discriminate H].
+  destruct (cmods mods 1 false) as [[p inv]|]; [|discriminate H]. destruct (ceval arg) as [v0|]; [|discriminate H].
+  match type of H with match ?r with _ => _ end = _ => destruct r as [final|]; [|discriminate H] end.
+  destruct ((p <? 10000) && num_val final); [|discriminate H]. injection H as <-.
+  destruct (p <=? 0); [reflexivity|]. induction (Z.to_nat p) as [|n IH]; [reflexivity|]. cbn [repeat]. unfold evs_of in *. cbn [flat_map ev_of]. exact IH.
+Qed.
